@@ -16,7 +16,10 @@ class P(Component):
 
 
 class Q(Component):
-    pass
+    """A container-like component: falsy while empty (truthiness must not matter to the framework)."""
+
+    def __len__(self):
+        return 0
 
 
 class R(P):
@@ -115,7 +118,8 @@ def _run(prog):
                 # same object (classes may share a component object; each class still owns its own attachment)
                 comp = shared.get((T, s))
                 if comp is None:
-                    comp = shared[(T, s)] = TYPES[T](None, model if s % 2 else Model())       # components built for different models
+                    # built the way the library's own tests build class components: "for" the class (every third one for nobody)
+                    comp = shared[(T, s)] = TYPES[T](None if s % 3 == 0 else cls[c], model if s % 2 else Model())
                 keep.append(comp)
                 serial[id(comp)] = s
                 cls[c].add_class_component(comp)
